@@ -103,6 +103,17 @@ pub fn cases(prop: &str, tier: Tier, seed: u64) -> Vec<CaseDesc> {
                 out.extend(with_scenario(g(p, nq, nt), "rt:emit"));
             }
         }
+        "C06" | "C07" => {
+            out.extend(with_scenario(disk_corpus(false), "rt:gc,gc2"));
+            for (p, nq, nt) in [("gcgraph", 3000, 150_000), ("exec", 800, 30_000), ("full", 500, 20_000)] {
+                let specs = g(p, nq, nt);
+                for (i, s) in specs.into_iter().enumerate() {
+                    // every third case registers custom-section roots through the harness section
+                    let scn = if i % 3 == 2 { "rt:gc,gc2,probe,roots" } else { "rt:gc,gc2" };
+                    out.push(CaseDesc { spec: s, scenario: scn.to_string() });
+                }
+            }
+        }
         "C01" => {
             out.extend(with_scenario(disk_corpus(false), "rt:emit"));
             for (p, nq, nt) in [("exec", 3000, 120_000), ("execmvp", 600, 20_000), ("gcgraph", 600, 20_000)] {
